@@ -133,7 +133,7 @@ def run(ctx):
             hist_kind[pu.KIND_NAMES[sc["srcs"][e["src"]]["msgs"][e["mi"]]["kind"]]] += 1
     ctx.coverage.update(
         evaluations=len(scs), distinct_nontrivial=len(nontrivial),
-        rule="scenario = 1-4 generated text logs (ISO-8601 microsecond stamps with zone, multi-line messages, optional missing final newline, names of different / non-ASCII / wide widths) + optionally one fixture (utmp, evtx, journal.gz, windowed) x options (--color always/never, -n/-p, -w, -u/-l(TZ)/-z with hour, half-hour, 45-minute and negative offsets, -d from 9 formats over the modelled specifiers, 6 prepend separators, 7 separators with every escape, --blocksz 128/256 for multi-part lines, -a/-b windows); non-trivial = at least one decoration option on; distinct by the option tuple + source kinds; each scenario is run decorated and undecorated",
+        rule="scenario = 1-4 generated text logs (ISO-8601 microsecond stamps with zone, multi-line messages, optional missing final newline, names of different / non-ASCII / wide widths) + optionally one fixture (utmp, evtx, journal.gz, windowed) x options (--color always/never, -n/-p, -w, -u/-l(TZ)/-z with hour, half-hour, 45-minute and negative offsets, -d from 9 formats over the modelled specifiers; every 4th scenario is of the class 'finer than a millisecond': a format with %.6f/%.9f/%6f/%9f/%f, zone -u / +05:30 / -09:30 / ..., colour alternating, text logs with 6-9 fractional digits whose consecutive messages differ only below the millisecond or have equal instants, 6 prepend separators, 7 separators with every escape, --blocksz 128/256 for multi-part lines, -a/-b windows); non-trivial = at least one decoration option on; distinct by the option tuple + source kinds; each scenario is run decorated and undecorated",
         samples=[pu.sc_public(sc) for sc in case_sc[:3]],
         scenarios_compared_with_model=len(cases), model_disagreements=len(bad_stdout),
         spec_ok=stats["spec_ok"], too_large_for_model_run=stats["too_large_for_model_run"], generator_mismatch=stats["generator_mismatch"], payload_has_esc=stats["payload_has_esc"],
@@ -143,7 +143,13 @@ def run(ctx):
                        align=sum(1 for s in case_sc if s["align"]), date=sum(1 for s in case_sc if pu.date_on(s)[0]),
                        separator=sum(1 for s in case_sc if s["sep"]), blocksz=sum(1 for s in case_sc if s["bs"]),
                        window=sum(1 for s in case_sc if s["window"]), fixture=sum(1 for s in case_sc if s["fixture"])),
-        class_hits={k: v for k, v in stats.items() if k.startswith("class_")})
+        class_hits={k: v for k, v in stats.items() if k.startswith("class_")},
+        sub_millisecond_class=dict(
+            scenarios=sum(1 for s in case_sc if s.get("subms")),
+            coloured=sum(1 for s in case_sc if s.get("subms") and s["colour"]),
+            consecutive_same_ms_different_instant=sum(pu.subms_pairs(s)[0] for s in case_sc if pu.date_on(s)[0]),
+            consecutive_equal_instant=sum(pu.subms_pairs(s)[1] for s in case_sc if pu.date_on(s)[0]),
+            formats=sorted(set(s["fmt"] for s in case_sc if s.get("subms")))))
     ctx.assumptions += [
         "termcolor emits only SGR groups of the shape reset [underline] foreground (checked on every coloured stdout); colour VALUES are abstracted to default/text/datetime",
         "message lists of fixtures (payload, instant, highlight range) are learned from the binary itself (marker separator / %s%f / --color always runs); utmp and evtx instants are cross-checked against the record text to the microsecond; journal instants are not",
